@@ -5,4 +5,9 @@
 EXTENDS PersistCacheChunks
 (* simulation: export the walk once, when it is 30 operations long (run with -depth 31) *)
 ExportAt30 == Len(hist) # 30 \/ PrintT(<<"BEH", ToJson(hist)>>)
+(* directed exploration: every behaviour starts by saving two 2-cell chunks and closing, so that the
+   bounded search reaches rewrites, crashes inside a rewrite, appends and reloads of that file *)
+DirPrefix == <<"Open", "Start", "Item", "Item", "Finish", "Close">>
+Directed == LET n == Len(hist') IN
+            n > Len(DirPrefix) \/ (hist'[n].a = DirPrefix[n] /\ (hist'[n].a = "Item" => hist'[n].sz = 2))
 ===============================================================================
